@@ -16,17 +16,62 @@ CATALOGUE = os.path.join(VERIF, 'mutants', 'catalogue.json')
 SLOTS = 8
 
 
-def _one(entry, pid, slot, base_keys):
+CACHE = os.path.join(VERIF, '.cache', 'selfcheck')
+
+
+def _room():
+    """cache only while the disk has room (a fact set is ~2.5 MB compressed, the whole catalogue ~1 GB)"""
+    try:
+        st = os.statvfs(VERIF)
+        return st.f_bavail * st.f_frsize > 6 * 1024 ** 3
+    except OSError:
+        return False
+
+
+def tree_hash():
+    """hash of everything the export of /repo depends on: the sources and manifests of the current working tree, and
+    the exporter.  A cached fact set is reused only for exactly this tree + exactly this patch."""
+    import hashlib
+    h = hashlib.sha256()
+    roots = ['/repo', os.path.join(VERIF, 'engine', 'oalfacts', 'src')]
+    for root in roots:
+        for dp, dn, fn in sorted(os.walk(root)):
+            dn[:] = sorted(x for x in dn if x not in ('target', '.git'))
+            for f in sorted(fn):
+                if f.endswith(('.rs', '.toml', '.lock')):
+                    fp = os.path.join(dp, f)
+                    h.update(fp.encode())
+                    with open(fp, 'rb') as fh:
+                        h.update(fh.read())
+    return h.hexdigest()[:16]
+
+
+def _cache_dir(th, entry):
+    import hashlib
+    with open(os.path.join(VERIF, entry['patch']), 'rb') as fh:
+        ph = hashlib.sha256(fh.read()).hexdigest()[:16]
+    return os.path.join(CACHE, '%s-%s' % (th, ph))
+
+
+def _one(entry, pid, slot, base_keys, th=None):
     d = '/tmp/oalverif-self-%s-%d' % (pid, slot)
     shutil.rmtree(d, ignore_errors=True)
     try:
+        # the facts of (this tree + this patch) exported by an earlier thorough run (of any property) are reused
+        cd = _cache_dir(th, entry) if th else None
+        if cd and os.path.isdir(cd):
+            r = subprocess.run([os.path.join(VERIF, 'check'), pid, '--keys-only', '--facts', cd], capture_output=True, text=True)
+            if r.returncode == 0 and r.stdout.strip():
+                keys = json.loads(r.stdout.strip().splitlines()[-1])[pid]
+                return {'id': entry['id'], 'status': 'checked', 'new_keys': sorted(set(keys) - set(base_keys)), 'facts': 'cached'}
         subprocess.check_call(['rsync', '-a', '--exclude', 'target', '--exclude', '.git', '/repo/', d + '/'])
         patch = os.path.join(VERIF, entry['patch'])
         r = subprocess.run(['patch', '-p1', '-s', '-f', '-d', d, '-i', patch], capture_output=True, text=True)
         if r.returncode != 0:
             return {'id': entry['id'], 'status': 'patch-does-not-apply'}
         env = dict(os.environ, OAL_TARGET_SLOT='self%d' % slot)
-        r = subprocess.run([os.path.join(VERIF, 'check'), pid, '--keys-only', '--src', d], capture_output=True, text=True, env=env)
+        save = ['--save-facts', cd] if cd and _room() else []
+        r = subprocess.run([os.path.join(VERIF, 'check'), pid, '--keys-only', '--src', d] + save, capture_output=True, text=True, env=env)
         if r.returncode != 0 or not r.stdout.strip():
             return {'id': entry['id'], 'status': 'does-not-build', 'detail': r.stderr[-400:]}
         keys = json.loads(r.stdout.strip().splitlines()[-1])[pid]
@@ -42,6 +87,12 @@ def run(c, pid, seed):
         return
     cat = json.load(open(CATALOGUE))
     base_keys = [v['key'] for v in c.violations]
+    th = tree_hash()
+    # fact sets of other trees are of no use any more
+    if os.path.isdir(CACHE):
+        for x in os.listdir(CACHE):
+            if not x.startswith(th + '-'):
+                shutil.rmtree(os.path.join(CACHE, x), ignore_errors=True)
     todo = [e for e in cat if (e['kind'] == 'benign') or (pid in e.get('properties', []))]
     results = []
     with concurrent.futures.ThreadPoolExecutor(max_workers=SLOTS) as ex:
@@ -55,7 +106,7 @@ def run(c, pid, seed):
         def job(e):
             s = q.get()
             try:
-                return _one(e, pid, s, base_keys)
+                return _one(e, pid, s, base_keys, th)
             finally:
                 q.put(s)
         for e in todo:
